@@ -125,7 +125,7 @@ pub fn check(v: &View, vd: &mut Verdict) {
             let Some((_, at, _)) = i.steps.iter().find(|x| x.0 as usize == k) else { continue };
             broadcasts += 1;
             for (s, spec) in case.actors.iter().enumerate() {
-                let is_target = spec.parent.is_some_and(|c| c.parent == pslot && c.under == *reg);
+                let is_target = spec.parent.is_some_and(|c| c.parent == pslot && (c.under == *reg || c.also_under == Some(*reg)));
                 let want = match reg {
                     ChildReg::Unit => None,
                     ChildReg::Msg0 => Some(MsgRef::Child { reg: 0, tag: *tag }),
@@ -173,7 +173,7 @@ pub fn check(v: &View, vd: &mut Verdict) {
             (all, sure)
         };
         match spec.parent {
-            Some(c) if c.under == ChildReg::Unit => {
+            Some(c) if c.under == ChildReg::Unit || c.also_under == Some(ChildReg::Unit) => {
                 let (all, sure) = sent(c.parent);
                 if units > all {
                     vd.fail("C16/unit_broadcast_duplicated", format!("child {s} handled {units} unit broadcasts, its parent sent {all}"));
